@@ -49,7 +49,7 @@ Skip == /\ l <= Len(TraceLog) /\ TraceLog[l].ev # "doc" /\ mode \in {"skip", "id
 
 Reject(why) == /\ Flag(3, why) /\ mode' = "skip" /\ l' = l + 1 /\ UNCHANGED <<vars, tid, okThis, pre>>
 
-OutClass(o) == IF o \in {"model", "enum", "plain", "arr", "wrap"} THEN "ok" ELSE o
+OutClass(o) == IF o \in {"model", "enum", "plain", "arr", "wrap", "union"} THEN "ok" ELSE o
 
 TCreateTry ==
   /\ IsEv("create_try") /\ mode = "run"
